@@ -1,72 +1,14 @@
 ------------------------------ MODULE CharSets ------------------------------
 (***************************************************************************)
-(* What a character recipe MEANS (char_gen.go buildCharacterList,          *)
-(* char_sets.go requireFilter, char_strength.go n()).                      *)
-(*                                                                         *)
-(* A character is an integer: the Unicode code point, or 1114112+b for an  *)
-(* invalid UTF-8 byte b (Go treats each such byte as one character).       *)
-(* A recipe is a record                                                    *)
-(*   [len, allow, require, exclude : Int (class flag bits),                *)
-(*    allowChars, excludeChars : Seq(Char), requireSets : Seq(Seq(Char))]  *)
-(* exactly the public fields of spg.CharRecipe.                            *)
+(* CharSetsCore (the meaning of a recipe) plus the recursive helpers TLC    *)
+(* uses: the sorted listing and exact counting with native integers.       *)
 (***************************************************************************)
-EXTENDS Integers, Sequences, FiniteSets, FiniteSetsExt
-
-\* ---- the documented built-in classes (C16) ----
-Uppers == 1
-Lowers == 2
-Digits == 4
-Symbols == 8
-Ambiguous == 16
-Letters == 3
-AllClasses == 15
-ClassFlags == {Uppers, Lowers, Digits, Symbols, Ambiguous}
-
-ClassChars(f) ==
-  CASE f = Uppers    -> 65..90                      \* A-Z
-    [] f = Lowers    -> 97..122                     \* a-z
-    [] f = Digits    -> 48..57                      \* 0-9
-    [] f = Symbols   -> {33, 64, 46, 45, 95, 42}    \* ! @ . - _ *
-    [] f = Ambiguous -> {48, 79, 49, 73, 108, 53, 83} \* 0 O 1 I l 5 S
-
-HasBit(x, f) == (x \div f) % 2 = 1
-FlagChars(flags) == UNION {ClassChars(f) : f \in {g \in ClassFlags : HasBit(flags, g)}}
-SeqSet(s) == {s[i] : i \in DOMAIN s}
-
-\* ---- expansion ----
-Excluded(r) == FlagChars(r.exclude) \cup SeqSet(r.excludeChars)
-AllowedRaw(r) == FlagChars(r.allow) \cup SeqSet(r.allowChars)
-
-\* The required sets as a BAG (sequence of sets): the non-empty custom strings in order, then one
-\* set per required class flag; each minus the excluded characters.  Equal sets stay separate.
-RequiredFlagSeq(r) ==
-  LET fs == <<Uppers, Lowers, Digits, Symbols, Ambiguous>>
-  IN  SelectSeq(fs, LAMBDA f : HasBit(r.require, f))
-ReqSets(r) ==
-  LET custom == SelectSeq(r.requireSets, LAMBDA s : Len(s) > 0)
-      fl == RequiredFlagSeq(r)
-  IN  [i \in 1..(Len(custom) + Len(fl)) |->
-         (IF i <= Len(custom) THEN SeqSet(custom[i]) ELSE ClassChars(fl[i - Len(custom)])) \ Excluded(r)]
-
-ReqUnion(r) == UNION {ReqSets(r)[i] : i \in DOMAIN ReqSets(r)}
-\* allowed, not excluded (exclusion always wins): the characters a password may contain
-Alphabet(r) == (AllowedRaw(r) \ Excluded(r)) \cup ReqUnion(r)
-\* a required set emptied by exclusion is ignored by the filter (char_sets.go: rset.size() > 0)
-LiveReq(r) == {i \in DOMAIN ReqSets(r) : ReqSets(r)[i] # {}}
-HasEmptiedReq(r) == LiveReq(r) # DOMAIN ReqSets(r)
+EXTENDS CharSetsCore, FiniteSetsExt
 
 \* sorted, duplicate-free listing (what Alphabet() must return; also the draw order under the verif hook)
 RECURSIVE SortedSeq(_)
 SortedSeq(S) == IF S = {} THEN <<>>
                 ELSE LET m == CHOOSE x \in S : \A y \in S : x <= y IN <<m>> \o SortedSeq(S \ {m})
-
-\* ---- validity of a candidate (sequence of characters) ----
-Satisfies(r, cand) == \A i \in LiveReq(r) : \E p \in DOMAIN cand : cand[p] \in ReqSets(r)[i]
-IsValid(r, cand) == /\ Len(cand) = r.len
-                    /\ \A p \in DOMAIN cand : cand[p] \in Alphabet(r)
-                    /\ Satisfies(r, cand)
-\* only for tiny alphabets and lengths
-ValidStrings(r) == {s \in [1..r.len -> Alphabet(r)] : Satisfies(r, s)}
 
 \* ---- exact counting with native integers (small cells) ----
 RECURSIVE IPow(_,_)
